@@ -110,6 +110,27 @@ func (e *executor) assertPC(c term) {
 	if c.s != "true" {
 		e.sv.send("(assert " + c.s + ")")
 	}
+	if c.eqAtom != nil {
+		lit := c.eqLit
+		c.eqAtom.pin = &lit
+	}
+}
+
+// assertNot asserts ¬c and shrinks the finite domain of a string atom compared with a literal.
+func (e *executor) assertNot(c term) {
+	e.assertPC(tNot(term{s: c.s, sort: c.sort}))
+	if at := c.eqAtom; at != nil && at.dom != nil {
+		var nd []string
+		for _, d := range at.dom {
+			if d != c.eqLit {
+				nd = append(nd, d)
+			}
+		}
+		at.dom = nd
+		if len(nd) == 1 {
+			at.pin = &nd[0]
+		}
+	}
 }
 
 // decide is the binary decision point for a symbolic condition.
@@ -128,22 +149,22 @@ func (e *executor) decide(c term) bool {
 		if d == 1 {
 			e.assertPC(c)
 		} else {
-			e.assertPC(tNot(c))
+			e.assertNot(c)
 		}
 		return d == 1
 	}
-	rt := e.feasible(c)
+	rt := e.feasible(term{s: c.s, sort: c.sort})
 	if rt == "unsat" {
 		e.pos++
 		e.trace = append(e.trace, 0)
 		// PC ∧ ¬c is sat because PC is; no need to assert ¬c for soundness but keep PC precise
-		e.assertPC(tNot(c))
+		e.assertNot(c)
 		return false
 	}
 	if rt == "unknown" {
 		e.note("solver unknown on branch feasibility")
 	}
-	rf := e.feasible(tNot(c))
+	rf := e.feasible(tNot(term{s: c.s, sort: c.sort}))
 	if rf == "unknown" {
 		e.note("solver unknown on branch feasibility")
 	}
@@ -263,6 +284,9 @@ func (e *executor) allocSize(v value) int64 {
 
 // concStr forks a symbolic string over the finite domains of its atoms.
 func (e *executor) concStr(v value) string {
+	if ss, ok := v.(symStr); ok {
+		v = ss.norm()
+	}
 	s, ok := v.(symStr)
 	if !ok {
 		return v.(string)
@@ -328,9 +352,13 @@ func allPerms(n int) [][]int {
 	return out
 }
 
-func symStrLen(s symStr) value {
+func symStrLen(s0 symStr) value {
+	s, ok := s0.norm().(symStr)
+	if !ok {
+		return len(s0.norm().(string))
+	}
 	// len() of a rope: bytes; only ASCII atoms are supported (domains/regexes are ASCII)
-	return symInt{term{fmt.Sprintf("((_ int2bv 64) (str.len %s))", strTerm(s).s), sortBV, 64}, types.Int}
+	return symInt{term{s: fmt.Sprintf("((_ int2bv 64) (str.len %s))", strTerm(s).s), sort: sortBV, bits: 64}, types.Int}
 }
 
 // ---- fresh symbolic inputs -----------------------------------------------------------------
@@ -352,7 +380,7 @@ func (e *executor) freshInt(label string, k types.BasicKind) symInt {
 	name := fmt.Sprintf("i%d_%s", e.nsym, sanitize(label))
 	bits := kindBits(k)
 	e.sv.send(fmt.Sprintf("(declare-const %s (_ BitVec %d))", name, bits))
-	t := term{name, sortBV, bits}
+	t := term{s: name, sort: sortBV, bits: bits}
 	e.events = append(e.events, inputDecl{Name: name, Kind: "int", Bits: bits, Sgn: kindSigned(k), term: t})
 	return symInt{t, k}
 }
@@ -361,7 +389,7 @@ func (e *executor) freshBool(label string) symBool {
 	e.nsym++
 	name := fmt.Sprintf("b%d_%s", e.nsym, sanitize(label))
 	e.sv.send(fmt.Sprintf("(declare-const %s Bool)", name))
-	t := term{name, sortBool, 0}
+	t := term{s: name, sort: sortBool}
 	e.events = append(e.events, inputDecl{Name: name, Kind: "bool", term: t})
 	return symBool{t}
 }
@@ -370,7 +398,7 @@ func (e *executor) freshStr(label string, dom []string) symStr {
 	e.nsym++
 	name := fmt.Sprintf("s%d_%s", e.nsym, sanitize(label))
 	e.sv.send(fmt.Sprintf("(declare-const %s String)", name))
-	t := term{name, sortStr, 0}
+	t := term{s: name, sort: sortStr}
 	if dom != nil {
 		var alts []string
 		for _, d := range dom {
